@@ -28,11 +28,18 @@ type VerifEnv struct {
 
 const VerifDrive = "/ghost/drive.tar"
 
+var verifEnvCount int
+
 func VerifNewEnv(pipes config.PipeConfig, readCrypto, writeCrypto config.CryptoConfig) *VerifEnv {
-	e := &VerifEnv{Drive: VerifDrive, RS: pipes.RecordSize}
-	e.Tape = vm.NewTape(VerifDrive)
-	vm.GhostFS[VerifDrive] = e.Tape
-	e.TM = tape.NewTapeManager(VerifDrive, nil, pipes.RecordSize, false)
+	drive := VerifDrive
+	if verifEnvCount > 0 {
+		drive = VerifDrive + "." + strconv.Itoa(verifEnvCount)
+	}
+	verifEnvCount++
+	e := &VerifEnv{Drive: drive, RS: pipes.RecordSize}
+	e.Tape = vm.NewTape(drive)
+	vm.GhostFS[drive] = e.Tape
+	e.TM = tape.NewTapeManager(drive, nil, pipes.RecordSize, false)
 	e.P = persisters.VerifNewPersister()
 	e.Metadata = config.MetadataConfig{Metadata: e.P}
 	e.Backend = config.BackendConfig{
